@@ -48,8 +48,11 @@ var c29Hosts = []c29Host{
 	{"tunnel." + testApex, "apex"},
 	{"a.b." + testApex, "apex"},
 	{" a.b.hello.com", "apex"},
+	{"shop." + strings.ToUpper(testApex[:1]) + testApex[1:], "apex"}, // reserved zones are reserved in any spelling
+	{"a.b." + strings.ToUpper(testApex), "apex"},
 	{testAcme, "acme"},
 	{"x.y." + testAcme, "acme"},
+	{"x." + strings.ToUpper(testAcme[:4]) + testAcme[4:], "acme"},
 	{"a.b." + testApex + ".evil.org", "contains-apex"},
 	{"x." + testAcme + ".evil.org", "contains-apex"},
 	{"*.cust1.example.org", "unnormalizable"},
